@@ -1183,6 +1183,41 @@ def g_dist(repo):
         raise Untranslatable("Flow._log_prob: base density call", m)
     defs.append(("flow_log_prob", "Definition flow_log_prob {T : Type} (O : ops T) (v_base_log_prob v_logabsdet : T) : T :=\n"
                  "  (o_add O v_base_log_prob v_logabsdet).\n"))
+    # every call into the base distribution or the transform, in all three methods, is handed the EMBEDDED context
+    ok_ctx = True
+    ncalls = 0
+    for meth in ("_log_prob", "_sample", "sample_and_log_prob"):
+        mm_ = fsrc.method("Flow", meth)
+        body = [s_ for s_ in mm_.body if not (isinstance(s_, ast.Expr) and isinstance(s_.value, ast.Constant))]
+        if ast.unparse(body[0]) != "embedded_context = self._embedding_net(context)":
+            ok_ctx = False
+        def scan(node, no_context_allowed):
+            nonlocal ok_ctx, ncalls
+            if isinstance(node, ast.If) and ast.unparse(node.test) == "self._context_used_in_base":
+                for b in node.body:
+                    scan(b, False)
+                for b in node.orelse:        # the base distribution takes no context at all
+                    scan(b, True)
+                return
+            if isinstance(node, ast.Call) and ast.unparse(node.func).startswith(("self._distribution.", "self._transform")):
+                ncalls += 1
+                kw = {k.arg: ast.unparse(k.value) for k in node.keywords}
+                given = kw.get("context")
+                if given is None and ast.unparse(node.func).startswith("self._transform") and len(node.args) > 1:
+                    given = ast.unparse(node.args[1])
+                if given is None:
+                    if not (no_context_allowed and ast.unparse(node.func).startswith("self._distribution.")):
+                        ok_ctx = False
+                elif given != "embedded_context":
+                    ok_ctx = False
+            for ch in ast.iter_child_nodes(node):
+                scan(ch, no_context_allowed)
+        for st_ in body:
+            scan(st_, False)
+    if ncalls < 5:
+        raise Untranslatable("Flow: expected calls into the distribution and the transform were not found", fsrc.cls("Flow"))
+    defs.append(("flow_every_call_gets_embedded_context",
+                 "Definition flow_every_call_gets_embedded_context : bool := %s.\n" % ("true" if ok_ctx else "false")))
     m = fsrc.method("Flow", "sample_and_log_prob")
     if ast.unparse(m.body[-1]) != "return (samples, log_prob - logabsdet)":
         raise Untranslatable("Flow.sample_and_log_prob: return form", m)
